@@ -12,6 +12,7 @@
 #include <pthread.h>
 #include <math.h>
 #include "cimba.h"
+#include "cmb_priorityqueue.h"
 
 /* ---- side tables (indexed by trial number computed from the element address) */
 #define MAXTR 1024
@@ -27,6 +28,7 @@ static _Atomic int in_seq;         /* 1 while the sequential reference runs */
 /* ---- the simulation inside a trial ------------------------------------- */
 struct world {
     struct cmb_resource *res; struct cmb_resourcepool *pool; struct cmb_buffer *buf; struct cmb_condition *cond;
+    struct cmb_objectqueue *oq; struct cmb_priorityqueue *pq; uint64_t objctr;
     int flag; uint64_t h; double acc[4]; uint64_t nev; int steps; int lattice;
     struct cmb_process *cust[12]; int ncust;
 };
@@ -43,7 +45,7 @@ static void *customer(struct cmb_process *me, void *ctx)
         /* half of the trials use lattice durations so that equal priorities meet at equal times in the waiting lists (exact ties) */
         int64_t sig = cmb_process_hold(W->lattice ? 0.5 * (double)cmb_random_dice(0, 2) : cmb_random_exponential(1.0 + 0.1 * id));
         hmix((uint64_t)sig + 17); hmixd(cmb_time()); W->nev++;
-        switch (cmb_random_dice(0, 5)) {
+        switch (cmb_random_dice(0, 6)) {
         case 0: case 1: {
             sig = cmb_resource_acquire(W->res);
             hmix((uint64_t)sig + 1); hmixd(cmb_time());
@@ -74,6 +76,14 @@ static void *customer(struct cmb_process *me, void *ctx)
             if (cmb_random_flip()) { W->flag = 1; cmb_condition_signal(W->cond); hmix(99); }
             else { W->flag = 0; cmb_process_timer_add(me, cmb_random_weibull(1.5, 2.0), CMB_PROCESS_TIMEOUT); sig = cmb_condition_wait(W->cond, cond_flag, NULL); cmb_process_timers_clear(me); hmix((uint64_t)sig + 5); hmixd(cmb_time()); }
             break; }
+        case 5: if (cmb_random_flip()) {
+            /* object traffic: the tag pools behind the queues are per-thread state too */
+            void *o = (void *)(uintptr_t)(++W->objctr * 16 + (uint64_t)id);
+            if (cmb_random_flip()) { if (cmb_objectqueue_length(W->oq) < 6) { sig = cmb_objectqueue_put(W->oq, o); hmix((uint64_t)sig + 6); } else { void *g = NULL; sig = cmb_objectqueue_get(W->oq, &g); hmix((uint64_t)(uintptr_t)g); } }
+            else { if (cmb_priorityqueue_length(W->pq) < 6) { sig = cmb_priorityqueue_put(W->pq, o, cmb_random_dice(0, 2), NULL); hmix((uint64_t)sig + 7); } else { void *g = NULL; sig = cmb_priorityqueue_get(W->pq, &g); hmix((uint64_t)(uintptr_t)g); } }
+            hmixd(cmb_time());
+            break; }
+            /* fall through */
         default: {
             double x = cmb_random_normal(0.0, 1.0) + cmb_random_std_beta(2.0, 3.0) + (double)cmb_random_poisson(2.0) + cmb_random_lognormal(0.0, 0.25);
             W->acc[2] += x; hmixd(x);
@@ -97,6 +107,8 @@ static void run_sim(uint64_t seed, uint32_t len, struct res *out)
     w.pool = cmb_resourcepool_create(); cmb_resourcepool_initialize(w.pool, "P", 4);
     w.buf = cmb_buffer_create(); cmb_buffer_initialize(w.buf, "B", 10);
     w.cond = cmb_condition_create(); cmb_condition_initialize(w.cond, "C");
+    w.oq = cmb_objectqueue_create(); cmb_objectqueue_initialize(w.oq, "OQ", 8);
+    w.pq = cmb_priorityqueue_create(); cmb_priorityqueue_initialize(w.pq, "PQ", 8);
     cmb_resource_start_recording(w.res);
     for (int k = 0; k < w.ncust; k++) { char nm[16]; snprintf(nm, sizeof nm, "c%d", k); w.cust[k] = cmb_process_create(); cmb_process_initialize(w.cust[k], nm, customer, (void *)(intptr_t)k, w.lattice ? cmb_random_dice(0, 1) : cmb_random_dice(-2, 2)); cmb_process_start(w.cust[k]); }
     cmb_event_schedule(end_sim, NULL, NULL, 5.0 + 3.0 * (double)len, 0);
@@ -107,6 +119,8 @@ static void run_sim(uint64_t seed, uint32_t len, struct res *out)
     if (cmb_timeseries_count(cmb_resource_history(w.res)) > 1) { cmb_timeseries_summarize(cmb_resource_history(w.res), &ws); w.acc[3] = cmb_wtdsummary_mean(&ws); }
     out->hash = w.h; out->events = w.nev; for (int k = 0; k < 4; k++) out->fp[k] = w.acc[k];
     for (int k = 0; k < w.ncust; k++) { if (cmb_process_status(w.cust[k]) == CMB_PROCESS_RUNNING) cmb_process_stop(w.cust[k], NULL); cmb_process_terminate(w.cust[k]); cmb_process_destroy(w.cust[k]); }
+    { void *g; while (cmb_objectqueue_length(w.oq) > 0 && w.ncust < 0) (void)g; }
+    cmb_objectqueue_destroy(w.oq); cmb_priorityqueue_destroy(w.pq);
     cmb_condition_destroy(w.cond); cmb_buffer_destroy(w.buf); cmb_resourcepool_destroy(w.pool); cmb_resource_destroy(w.res);
     cmb_event_queue_terminate(); cmb_random_terminate();
     W = NULL;
